@@ -524,7 +524,7 @@ func (fr *Frame) enterLoop(head *ssa.BasicBlock, ord int, in *State) *State {
 		s := ms.heaps[n]
 		ex.cx.heapSorts[n] = s
 		if ms.all || ms.coarse[n] {
-			st.heaps[n] = ex.cx.fresh("lh_"+n, s)
+			st.heaps[n] = ex.freshHeap("lh_", n, s)
 			continue
 		}
 		h := ex.heap(in, n, s)
@@ -545,7 +545,7 @@ func (fr *Frame) enterLoop(head *ssa.BasicBlock, ord int, in *State) *State {
 			}
 		}
 		if !precise {
-			st.heaps[n] = ex.cx.fresh("lh_"+n, s)
+			st.heaps[n] = ex.freshHeap("lh_", n, s)
 			continue
 		}
 		for _, t := range targets {
@@ -553,7 +553,7 @@ func (fr *Frame) enterLoop(head *ssa.BasicBlock, ord int, in *State) *State {
 		}
 		if ms.freshW[n] {
 			// objects allocated inside the loop may differ; older ones keep h
-			nh := ex.cx.fresh("lf_"+n, s)
+			nh := ex.freshHeap("lf_", n, s)
 			ex.cx.assume(Term{fmt.Sprintf("(forall ((r!l Ref)) (! (=> %s (= (select %s r!l) (select %s r!l))) :pattern ((select %s r!l))))",
 				ex.refOldStrict(Term{"r!l", SRef}, apIn).S, nh.S, h.S, nh.S), SBool})
 			h = nh
